@@ -462,12 +462,21 @@ pub fn plan_runs(prop: &str, sc: &Scenario, infos: &[SysInfo], layout: &crate::b
                     // in the first call only: the following calls show that the meeting still works
                     s.faults.push(Fault { sid: ps, call: calls[0], kind, arg: 0 });
                 }
+                // "given at least as many idle pool threads as the stage has groups": a worker
+                // that is driving an enclosing batch, or the background job of the async
+                // dispatcher, is not idle - one more thread for each of them
+                let mut busy = s.asyncd as usize;
+                let mut q = *parent;
+                while let Some(x) = q {
+                    busy += 1;
+                    q = infos[x].parent;
+                }
                 let extra = if rng.chance(1, 2) { 0 } else { rng.below(3) as usize };
                 if rng.chance(1, 2) {
-                    s.pool.supplied = Some(w + extra);
+                    s.pool.supplied = Some(w + busy + extra);
                 } else {
                     s.pool.supplied = None;
-                    s.pool.machine = w + extra;
+                    s.pool.machine = w + busy + extra;
                 }
                 if !s.asyncd && rng.chance(1, 5) {
                     s.from_pool = Some(1);
@@ -548,6 +557,53 @@ pub fn eval_run(sc: &Scenario, b: &Built, ro: &RunOut, overlap_pairs: &mut u64) 
             }
         }
     }
+    out
+}
+
+/// C03, second sentence: a barrier where no system was registered since the previous barrier (or
+/// at the very beginning of a builder) changes nothing. Every builder of the scenario gets one in
+/// front and a second one next to each of its barriers; the executed plan must be the same.
+pub fn with_redundant_barriers(regs: &[Reg]) -> Vec<Reg> {
+    let mut out = vec![Reg::Barrier];
+    for r in regs {
+        match r {
+            Reg::Barrier => {
+                out.push(Reg::Barrier);
+                out.push(Reg::Barrier);
+            }
+            Reg::Batch { name, deps, ctl_read, ctl_write, times, multi, hint, inner } => out.push(Reg::Batch {
+                name: name.clone(),
+                deps: deps.clone(),
+                ctl_read: *ctl_read,
+                ctl_write: *ctl_write,
+                times: *times,
+                multi: *multi,
+                hint: *hint,
+                inner: with_redundant_barriers(inner),
+            }),
+            Reg::TlDisp { inner } => out.push(Reg::TlDisp { inner: with_redundant_barriers(inner) }),
+            other => out.push(other.clone()),
+        }
+    }
+    out
+}
+
+pub fn check_redundant_barriers(sc: &Scenario) -> Vec<Violation> {
+    let mut s2 = sc.clone();
+    s2.regs = with_redundant_barriers(&sc.regs);
+    let a = build(sc, &BuildOpts::default());
+    let b = build(&s2, &BuildOpts::default());
+    let (ca, cb) = (a.layout.canonical(), b.layout.canonical());
+    let mut out = Vec::new();
+    if a.layout.ident_panic.is_none() && b.layout.ident_panic.is_none() && ca != cb {
+        out.push(Violation {
+            prop: "C03".into(),
+            class: "redundant-barrier-changed-plan".into(),
+            msg: format!("the executed plan is {} ; with a barrier added in front of every builder and next to every barrier it is {}", ca, cb),
+        });
+    }
+    let _ = eval_dispose(a);
+    let _ = eval_dispose(b);
     out
 }
 
@@ -1009,6 +1065,13 @@ pub fn explore(prop: &str, seed: u64, thorough: bool, st: &mut Stats) -> Vec<Rep
         explore_async(prop, seed, &sc, thorough, st, &mut rng, &mut found);
         return found;
     }
+    if prop == "C03" && !sc.asyncd && seed % 4 == 0 {
+        st.runs += 1;
+        Stats::bump(&mut st.probes, "redundant_barriers_compared", 1);
+        for v in check_redundant_barriers(&sc) {
+            push_found(prop, &mut found, st, &v, || mk_replay(prop, seed, &sc, "redundant-barriers", &StratSpec::NoPreempt, 0, None, 0, &v));
+        }
+    }
     if prop == "C13" && seed % 6 == 0 {
         // dispose does not presuppose setup: a dispatcher that was never set up (the world may
         // have been filled by other means) hands every system to its dispose hook all the same
@@ -1199,6 +1262,9 @@ pub fn eval_replay(r: &Replay) -> EvalOut {
         let o = crate::afamily::eval_async_on(&mut b, &sc, &r.strategy, r.run_seed, r.trace.clone());
         crate::afamily::dispose_async(b);
         return EvalOut { violations: o.violations, digest: o.digest, trace: o.trace, steps: o.steps };
+    }
+    if r.mode == "redundant-barriers" {
+        return EvalOut { violations: check_redundant_barriers(&sc), digest: 0, trace: vec![], steps: 0 };
     }
     if r.mode == "nosetup" {
         let nb = build(&sc, &BuildOpts { do_setup: false, ..BuildOpts::default() });
